@@ -214,7 +214,7 @@ func init() {
 				c.cmpParse(d, defaultCfg, bp, in, allFields, true, "cost-family:"+f.name, i)
 			})
 		},
-		rule: "34 repetition families (those of the property plus backslashes, encoded dot segments, deep relative resolution, invalid UTF-8, drive letters, tab/newline, IPv6/IPv4 digits) x n in {1Ki, 4Ki, 16Ki} (quick) up to 64Ki (thorough) x {default parser, GoogleSafeBrowsing, Semantic}; runtime.MemStats TotalAlloc and Mallocs around parse + every getter + String + SearchParams, minimum of 3 runs, GC disabled; after a warm-up at the largest size; violation when bytes or objects per input byte grow by more than 6x from the smallest to the largest size (quadratic growth: 16x in quick, 64x in thorough); distinct = (parser, family, n)",
+		rule:    "34 repetition families (those of the property plus backslashes, encoded dot segments, deep relative resolution, invalid UTF-8, drive letters, tab/newline, IPv6/IPv4 digits) x n in {1Ki, 4Ki, 16Ki} (quick) up to 64Ki (thorough) x {default parser, GoogleSafeBrowsing, Semantic}; runtime.MemStats TotalAlloc and Mallocs around parse + every getter + String + SearchParams, minimum of 3 runs, GC disabled; after a warm-up at the largest size; violation when bytes or objects per input byte grow by more than 6x from the smallest to the largest size (quadratic growth: 16x in quick, 64x in thorough); distinct = (parser, family, n)",
 		trusted: []string{"runtime.MemStats as the measure of allocation; wall-clock time is not measured"},
 	}
 }
